@@ -36,7 +36,7 @@ RECVS = ["fresh", "lazyrows", "lazycols+2", "lazycols-1", "lazychain", "ufunc", 
 FLOOR_TAGS = ["recv:" + r_ for r_ in RECVS] + ["mask-as-list", "r:int", "r:slice+1", "r:slice+k", "r:slice-", "r:list", "r:array", "r:mask", "r:ell",
               "c:none", "c:int+", "c:int-", "c:slice+1", "c:slice+k", "c:slice-",
               "must-refuse", "sel-has-empty-row", "ellipsis-padded", "e-first", "e-last", "e-mid", "e-consec", "allempty", "norows"]
-FLOOR_MONITORS = ["c02:model-compare", "c02:refusal", "c02:arguments-unchanged", "c02:after-refusal", "c02:index-object-reused", "c02:refusal-on-derived"]
+FLOOR_MONITORS = ["c02:model-compare", "c02:refusal", "c02:arguments-unchanged", "c02:after-refusal", "c02:index-object-reused", "c02:refusal-on-derived", "c02:ask-again-after-read"]
 FP_STRICT = True       # a floating-point event inside the library that the dense computation does not have is a violation (shard.FpMonitor)
 N_RANDOM = {"quick": 12000, "thorough": 400000}
 
@@ -292,6 +292,15 @@ def run(case):
         return violated("reading ra[%s] changed the array" % short(idx), tags + ["read-mutates"])
     if parent is not None and peek(parent) != parent_before:
         return violated("reading ra[%s] changed the array it was derived from" % short(idx), tags + ["read-mutates"])
+    # the same question again after the array has been read in full (which materialises an unmaterialised receiver in place): what the first
+    # answer left behind on the object (a remembered view, offsets into the old buffer) must not show
+    if sum(lens) <= 5000:
+        CTX.tick("c02:ask-again-after-read", parent is not None)
+        attempt(lambda: ra.tolist())
+        o3 = attempt(lambda: observe(ra[idx]))
+        if not o3.ok or o3.value != exp:
+            return violated("ra[%s] asked again after the array had been read in full gave %s, the list of rows gives %s" % (short(idx), repr(o3) if not o3.ok else short(o3.value[1]), short(exp[1])),
+                            tags + ["stale-after-materialisation"], got=repr(o3) if not o3.ok else o3.value, expected=exp)
     # the caller refills his index array in place (a reused buffer, a mask updated in place) and asks again with the SAME object
     if isinstance(rs, np.ndarray) and rs.ndim == 1 and len(rs) >= 2 and rs.flags.writeable:
         new_rs = np.roll(rs, 1) if rs.dtype != bool else np.logical_not(rs)
@@ -323,11 +332,30 @@ def directed():
                 yield dict(c, recv=recv)
     for c in longrow_cases():
         yield c
+    for c in tall_narrow_cases():
+        yield c
     # negative column numbers carried by a narrow numpy integer type, on rows longer than that type can count (row length + column leaves the type)
     lens = [3, 300, 40000, 130, 2]
     for rs in (1, 2, 3, [1, 2], [3, 1, 2], slice(1, 4), np.array([2, 1])):
         for col in (np.int8(-1), np.int8(-2), np.int8(-128), np.int16(-1), np.int16(-129), np.int16(-300), np.int32(-1), np.int32(-40000), np.int64(-7), np.uint8(129), np.uint16(299), np.int8(127), np.int16(299)):
             yield mk_case(lens, rs, col, True)
+
+
+def tall_narrow_cases():
+    """row numbers close to the largest value of the narrow numpy integer type that carries them (any arithmetic on the number in its own type wraps),
+    on arrays with that many rows: single element, whole row, rows with a column, index arrays of that type"""
+    for nrows, carriers in ((130, (("int8", 127), ("int8", 100), ("int8", 64), ("uint8", 129), ("int8", -128), ("int8", -65))), (260, (("uint8", 255), ("uint8", 200), ("uint8", 128), ("int16", 259))),
+                            (33000, (("int16", 32767), ("int16", 16384), ("int16", 20000), ("uint16", 32999), ("int16", -32768), ("int16", -16385)))):
+        lens = [(i * 7) % 4 + 1 for i in range(nrows)]
+        for dt_, v in carriers:
+            r = np.dtype(dt_).type(v)
+            yield mk_case(lens, r)
+            yield mk_case(lens, r, 0, True)
+            yield mk_case(lens, r, np.dtype(dt_).type(0), True)
+            yield mk_case(lens, r, slice(None, None, -1), True)
+            yield mk_case(lens, np.array([v, v // 2, 0 if v >= 0 else -1], dtype=dt_), 0, True)
+            yield mk_case(lens, np.array([v, v // 2], dtype=dt_))
+            yield mk_case(lens, np.array(v, dtype=dt_), 0, True)
 
 
 LONGROW_SHAPES = ([6001, 0, 5003, 7002], [2 ** 20 + 5, 2 ** 20 + 76], [3, 1600001, 2])
